@@ -6,6 +6,7 @@ pub mod common;
 
 pub mod rs;
 pub mod c01;
+pub mod c02;
 pub mod c03;
 pub mod c04;
 pub mod c05;
@@ -29,6 +30,7 @@ macro_rules! module {
 pub fn modules() -> Vec<Module> {
     vec![
         module!("C01", c01),
+        module!("C02", c02),
         module!("C03", c03),
         module!("C04", c04),
         module!("C05", c05),
